@@ -160,6 +160,10 @@ def _pool(r, i):
     lib2 = HEADER + "level = d1.Charge + 2\ndef upd(a):\n    global level\n    level = level - a\n    db.Mode = level\n"
     P.append(dict(src={"": HEADER + "from library import alpha, beta\nwhile True:\n    alpha.upd(1)\n    beta.upd(2)\n    yield_()\n", "alpha": lib, "beta": lib2}, opts=dict(opts_from_bits(r.randrange(256)), inline_functions=False)))
     P.append(dict(src={"": HEADER + "from library import beta as alpha\nwhile True:\n    alpha.upd(3)\n    yield_()\n", "beta": lib2}, opts=opts_from_bits(r.randrange(256))))
+    # a directive inside a library module (only the main file's directives count) with an options object that the
+    # next request re-uses
+    libp = HEADER + r.choice(["# pytrapic: use-push-pop-functions, compact\n", "# pytrapic: no-inline-functions, remove-labels\n"]) + "def upd(a):\n    db.Setting = a\n"
+    P.append(dict(src={"": HEADER + "from library import gamma\nwhile True:\n    gamma.upd(d0.Setting)\n    gamma.upd(2)\n    yield_()\n", "gamma": libp}, opts=opts_from_bits(r.randrange(256)), share_options=True))
     for k in range(2):
         P.append(dict(src=workload.gen_program(ID, "gen", i * 10 + k)[0]["src"], opts=opts_from_bits(r.randrange(256))))
     r.shuffle(P)
